@@ -12,7 +12,7 @@ RULE = {
     "C13": "three simulation kinds (single-cycle, five-stage with random cache configurations and hazard flag, TOY) x programs ending by fall-through, jump outside the program, exit ecall with younger instructions in flight, fault, or empty text x load histories of 0-5 earlier well-formed and malformed loads; "
     "monitors: snapshot unchanged by step()/run() after done, step() return value == not is_done(), run() twin == step-loop twin, reloaded twin == fresh twin in snapshot and in every later step. "
     "non-trivial = case with a non-empty load history containing a failed load, or a terminal pipeline state reached through an exit ecall / jump outside; distinct by case hash.",
-    "C16": "twin A calls random subsets/repetitions of every inspection function between steps, twin B is stepped blind until a random step k and from then on compared with A on the full snapshot after every step, plus final comparison; both RISC-V modes x random D/I cache configurations x hazard flag, and TOY incl. between half cycles. "
+    "C16": "twin A calls random subsets/repetitions of every inspection function between steps, twin B is NEVER inspected: at comparison points (every step / every k-th step / only at the end) a deepcopy of B is inspected and compared with A on the full snapshot, the two snapshots calling the inspection functions in independent random orders; both RISC-V modes x random D/I cache configurations x hazard flag, and TOY incl. between half cycles. "
     "non-trivial = run with a cache enabled and >=1 miss after an inspection burst (TOY: >=1 burst between half cycles); distinct by case hash.",
 }
 ASSUMPTIONS = {
@@ -238,6 +238,11 @@ def directed_life():
 
 
 def run_pure_case(case, res):
+    """twin A: random bursts of inspection calls between steps.  twin B: NEVER inspected - whenever a comparison
+    is due, a deepcopy of B is inspected (so B stays blind for the whole run).  The two snapshots call the
+    inspection functions in independent random orders, so an inspection that influences a later one (in the same
+    step or any later step) shows up as a difference."""
+    import copy
     import random
 
     kind, cfg = case["sim"], case["cfg"]
@@ -250,7 +255,7 @@ def run_pure_case(case, res):
         init_regs(kind, s, case["regs"])
     names = INSPECT_TOY if kind == "toy" else INSPECT_RISCV
     insp = (lambda s, n: call_toy_inspection(s, n)) if kind == "toy" else (lambda s, n: call_inspection(s, n))
-    join = case["join_step"]
+    every = case["join_step"]  # reused as comparison density: 0 -> every step, k -> every k-th step, huge -> only at the end
     n = 0
     nt = False
 
@@ -270,10 +275,23 @@ def run_pure_case(case, res):
                 t += int(st["accesses"]) - int(st["hits"])
         return t
 
+    def compare(where):
+        blind = copy.deepcopy(B_)
+        oa, ob = rng.sample(names, len(names)), rng.sample(names, len(names))
+        a = (toy_snapshot(A_, oa) if kind == "toy" else riscv_snapshot(A_, oa))
+        b = (toy_snapshot(blind, ob) if kind == "toy" else riscv_snapshot(blind, ob))
+        res.count("snapshots_compared")
+        res.count("blind_twin_joins")
+        if a != b:
+            res.violation("C16", "inspection-impure", "%s: the inspected twin differs from a never-inspected twin in %s (inspection call orders %s vs %s)" % (where, diff_names(a, b), [x[:18] for x in oa[:4]], [x[:18] for x in ob[:4]]), case)
+            return False
+        return True
+
     burst(A_)
-    m_prev = None
+    if not compare("before the first step"):
+        return
     while not B_.is_done() and n < case["max_steps"]:
-        m_before = misses(B_) if kind != "toy" else 0
+        m_before = misses(B_)
         try:
             if kind == "toy" and rng.random() < 0.5:
                 # inspection between the two half cycles (twin B does the same halves, uninspected)
@@ -284,10 +302,10 @@ def run_pure_case(case, res):
                 A_.second_cycle_step()
                 B_.step()
             else:
-                ra = A_.step()
-                rb = B_.step()
-        except Exception as e:
-            # faulting program: both twins must fault alike
+                A_.step()
+                B_.step()
+        except Exception:
+            # faulting program: both twins fault alike (C15 judges the exception itself)
             try:
                 B_.step()
             except Exception:
@@ -298,18 +316,10 @@ def run_pure_case(case, res):
             res.count("cache_misses_after_burst")
             nt = True
         burst(A_)
-        if n == join:
-            res.count("blind_twin_joins")
-        if n >= join:
-            a, b = snap(kind, A_), snap(kind, B_)
-            res.count("snapshots_compared")
-            if a != b:
-                res.violation("C16", "inspection-impure", "after step %d the inspected twin differs from the twin that was stepped blind until step %d in %s" % (n, join, diff_names(a, b)), case)
+        if every == 0 or (every < 10**5 and n % every == 0):
+            if not compare("after step %d" % n):
                 return
-    a, b = snap(kind, A_), snap(kind, B_)
-    res.count("snapshots_compared")
-    if a != b:
-        res.violation("C16", "inspection-impure", "final snapshots differ in %s (inspected twin vs. twin blind until step %d)" % (diff_names(a, b), join), case)
+    if not compare("at the end (after %d steps)" % n):
         return
     if nt:
         res.nontrivial(h64(case))
@@ -321,7 +331,7 @@ def gen_pure_case(rng):
         from . import toy as T
 
         src = T.gen_source(rng)
-        return {"kind": "pure", "sim": "toy", "cfg": {}, "text": src["text"], "regs": {}, "max_steps": 80, "join_step": rng.choice([0, 1, 3, 10, 10**6]), "seed": rng.getrandbits(30)}
+        return {"kind": "pure", "sim": "toy", "cfg": {}, "text": src["text"], "regs": {}, "max_steps": 80, "join_step": rng.choice([0, 1, 2, 3, 10**6]), "seed": rng.getrandbits(30)}
     prog, regs, _ = gen_rv_program(rng, allow_fault=rng.random() < 0.1)
     cfg = {"hz": rng.random() < 0.8, "dcache": rand_cache(rng), "icache": rand_cache(rng, data=False)}
     if rng.random() < 0.5:
@@ -330,7 +340,7 @@ def gen_pure_case(rng):
     text = asm_text(prog)
     if rng.random() < 0.4:
         text = ".data\nd0: .word 1, 2, 3\nd1: .string \"abc\"\n.text\n" + text
-    return {"kind": "pure", "sim": kind, "cfg": cfg, "text": text, "regs": regs, "max_steps": 250, "join_step": rng.choice([0, 1, 2, 5, 20, 10**6]), "seed": rng.getrandbits(30)}
+    return {"kind": "pure", "sim": kind, "cfg": cfg, "text": text, "regs": regs, "max_steps": 250, "join_step": rng.choice([0, 1, 2, 3, 7, 10**6]), "seed": rng.getrandbits(30)}
 
 
 def run_case(prop, case, res):
